@@ -237,17 +237,11 @@ func (l *DList[T]) Pop() *DoubleNode[T] {
 // Find searches for a node element in the linked list.
 // It returns the node in case the element is found otherwise nil.
 func (l *DList[T]) Find(val T) (*DoubleNode[T], bool) {
-	head := &l.DoubleNode
-
 	for n := &l.DoubleNode; n != nil; n = n.next {
 		if n.Value == val {
-			l.DoubleNode = *head
 			return n, true
 		}
 	}
-
-	// Move the pointer to the head of the linked list.
-	l.DoubleNode = *head
 
 	return nil, false
 }
@@ -261,18 +255,12 @@ func (l *DList[T]) First() T {
 
 // Last retrieves the last element of the doubly linked list.
 func (l *DList[T]) Last() T {
-	head := l.DoubleNode
-	var value T
-
-	for l.DoubleNode.next != nil {
-		l.DoubleNode = *l.DoubleNode.next
+	last := &l.DoubleNode
+	for last.next != nil {
+		last = last.next
 	}
-	value = l.DoubleNode.Value
 
-	// Move the pointer to the head of the linked list.
-	l.DoubleNode = head
-
-	return value
+	return last.Value
 }
 
 // Each iterates over the elements of the linked list and invokes
